@@ -8,6 +8,7 @@ import (
 	"strings"
 	"time"
 
+	"github.com/cedar-policy/cedar-go/types"
 	"github.com/cedar-policy/cedar-go/x/exp/schema"
 	sast "github.com/cedar-policy/cedar-go/x/exp/schema/ast"
 
@@ -313,6 +314,10 @@ type c17Stats struct {
 func checkC17(c *vh.Ctx, tag string, s0 *sast.Schema, feat schemaFeatures) {
 	report := func(leg, kind, what string, exp, act any) {
 		cls := classifyC17(leg, kind, feat)
+		if cls == "primitive-shadowed-by-entity" && feat.entityRefNode && c17EntityRefExplains(s0) {
+			// both features are present: attribute by repair (the variant without entity-reference nodes round-trips)
+			cls = "entity-ref-rendered-as-ambiguous-name"
+		}
 		if cls == "" {
 			cls = "unexplained-" + leg + "-" + kind
 		}
@@ -596,4 +601,75 @@ func runC17(c *vh.Ctx) {
 	}
 	sort.Strings(keys)
 	c.Res.Notes = append(c.Res.Notes, "failures by class: "+strings.Join(keys, " "))
+}
+
+// ---- attribution by repair for text legs whose resolution differs ----
+
+// c17DemoteType replaces every explicit entity-type reference NODE by the type-name reference the Cedar text of it denotes.
+func c17DemoteType(t sast.IsType) sast.IsType {
+	switch v := t.(type) {
+	case sast.EntityTypeRef:
+		return sast.Type(types.Path(v))
+	case sast.SetType:
+		return sast.SetType{Element: c17DemoteType(v.Element)}
+	case sast.RecordType:
+		if v == nil {
+			return v
+		}
+		out := sast.RecordType{}
+		for k, a := range v {
+			out[k] = sast.Attribute{Type: c17DemoteType(a.Type), Optional: a.Optional, Annotations: a.Annotations}
+		}
+		return out
+	}
+	return t
+}
+
+func c17DemoteNamespace(ns sast.Namespace) sast.Namespace {
+	for k, e := range ns.Entities {
+		if e.Shape != nil {
+			e.Shape = c17DemoteType(e.Shape).(sast.RecordType)
+		}
+		if e.Tags != nil {
+			e.Tags = c17DemoteType(e.Tags)
+		}
+		ns.Entities[k] = e
+	}
+	for k, a := range ns.Actions {
+		if a.AppliesTo != nil && a.AppliesTo.Context != nil {
+			at := *a.AppliesTo
+			at.Context = c17DemoteType(at.Context)
+			a.AppliesTo = &at
+			ns.Actions[k] = a
+		}
+	}
+	for k, ct := range ns.CommonTypes {
+		ct.Type = c17DemoteType(ct.Type)
+		ns.CommonTypes[k] = ct
+	}
+	return ns
+}
+
+// c17EntityRefExplains: the schema with its explicit entity-reference nodes written as what their text means round-trips
+// through text with the same resolution — then the entity-reference ambiguity alone explains a resolve-differs of s0.
+func c17EntityRefExplains(s0 *sast.Schema) bool {
+	ok := false
+	vh.Protect(func() {
+		cp := c14CopySchema(s0, nil)
+		top := c17DemoteNamespace(sast.Namespace{Entities: cp.Entities, Enums: cp.Enums, Actions: cp.Actions, CommonTypes: cp.CommonTypes})
+		cp.Entities, cp.Enums, cp.Actions, cp.CommonTypes = top.Entities, top.Enums, top.Actions, top.CommonTypes
+		for k, ns := range cp.Namespaces {
+			cp.Namespaces[k] = c17DemoteNamespace(ns)
+		}
+		t, err := schema.NewSchemaFromAST(cp).MarshalCedar()
+		if err != nil {
+			return
+		}
+		var sc schema.Schema
+		if sc.UnmarshalCedar(t) != nil {
+			return
+		}
+		ok = sameRes(resolveOut(cp), resolveOut(sc.AST()))
+	})
+	return ok
 }
